@@ -121,6 +121,7 @@ class World:
                                                            "is_functionally_equivalent_to", "has_semantics_of", "is_zero_sized")}
         self.oracle = oracle or {}
         self.depth = 0
+        self.fork_relations = False
 
     def is_sym(self, v):
         return isinstance(v, Variant) and v.last == "TySym"
@@ -137,6 +138,20 @@ class World:
                 return self.oracle[k2]
             if not args and self.is_sym(recv):
                 raise UnknownPredicate(name, recv)
+            if self.fork_relations and name != "max":
+                # a relation between an arbitrary type and something else: what the source itself answers, if it needs nothing unknown ...
+                try:
+                    saved = self.depth
+                    return self.call(name, recv, args, top=True)
+                except UnknownPredicate:
+                    self.depth = saved
+                except (Panic, CannotEstablish):
+                    self.depth = saved
+                # ... else the caller forks on it
+                u = UnknownPredicate(name, recv if self.is_sym(recv) else args[0])
+                u.key = k2
+                u.what = "relation %s(%r, %r)" % (name, recv, args)
+                raise u
             raise CannotEstablish("no oracle answer for %s(%r, %r)" % (name, recv, args))
         self.depth += 1
         if self.depth > 12:
@@ -354,6 +369,90 @@ def r12d(ctx, run):
                 break
         else:
             run.ok(f.site(), "max(%s): same answer in both orders" % desc)
+
+
+# ---- a branch that always jumps takes no part in the common type (used by C07 and C01, not a clause of C12) --------
+
+def noeval_samples():
+    s = T("s")
+    out = dict(scalars())
+    out.update({
+        "nil": Variant("Ty::Nil"), "void": Variant("Ty::Void"), "type": Variant("Ty::Type"), "any": Variant("Ty::Any"), "str": Variant("Ty::String"),
+        "rawptr": Variant("Ty::RawPtr", {"mutable": False}), "rawslice": Variant("Ty::RawSlice"),
+        "?s": Variant("Ty::Optional", {"sub_ty": s}), "^s": Variant("Ty::Pointer", {"mutable": False, "sub_ty": s}),
+        "[]s": Variant("Ty::Slice", {"sub_ty": s}), "[3]s": Variant("Ty::ConcreteArray", {"size": 3, "sub_ty": s}),
+        "distinct s": Variant("Ty::Distinct", {"uid": 1, "sub_ty": s}),
+        "E.V(s)": Variant("Ty::EnumVariant", {"enum_uid": 2, "variant_name": Term("V"), "uid": 3, "sub_ty": s, "discriminant": 0}),
+        "enum E": Variant("Ty::Enum", {"uid": 2, "variants": []}),
+        "s!t": Variant("Ty::ErrorUnion", {"error_ty": s, "payload_ty": T("t")}),
+        "struct": Variant("Ty::ConcreteStruct", {"uid": 4, "members": []}),
+        "T (arbitrary)": T("X"),
+    })
+    return out
+
+
+def contains_noeval(v):
+    if isinstance(v, Variant):
+        if v.last == "AlwaysJumps":
+            return True
+        return any(contains_noeval(x) for x in (v.payload or {}).values())
+    if isinstance(v, (list, tuple)):
+        return any(contains_noeval(x) for x in v)
+    return False
+
+
+def noeval_law(ctx, run, clauses=("wrapped", "rejected")):
+    """max(noeval, X) and max(X, noeval), evaluated from the source for every kind of X.
+
+    wrapped : the answer contains `noeval` inside a constructor (`?noeval` ...): no error is reported for the program and the code generator cannot build the type
+    rejected: the answer is not X: an if/else one of whose branches returns/breaks is refused (or retyped) although the other branch alone decides the type
+    """
+    w0 = World(ctx)
+    f = w0.fns["max"]
+    nv = Variant("Ty::AlwaysJumps")
+    for name, x in noeval_samples().items():
+        for order, (a, b) in (("noeval,X", (nv, x)), ("X,noeval", (x, nv))):
+            work, outcomes, n = [{}], [], 0
+            while work:
+                orc = work.pop()
+                n += 1
+                if n > 64:
+                    outcomes.append(("cannot establish: more than 64 predicate cases", orc))
+                    break
+                base = {("is_zero_sized", repr(T("s")), None): False, ("is_zero_sized", repr(T("t")), None): False}
+                base.update(orc)
+                ww = World(ctx, oracle=base)
+                ww.fork_relations = True
+                try:
+                    got = ww.call("max", a, [b], top=True)
+                except UnknownPredicate as u:
+                    for v in (True, False):
+                        o2 = dict(orc)
+                        o2[u.key] = v
+                        work.append(o2)
+                    continue
+                except (Panic, CannotEstablish) as c:
+                    got = "cannot establish: %s" % getattr(c, "what", c)
+                outcomes.append((got, orc))
+            for got, orc in outcomes:
+                case = ", ".join("%s(%s)=%s" % (k[0], k[1].split("'")[-2] if "'" in k[1] else k[1], v) for k, v in orc.items())
+                where = "max(%s) with X = %s%s" % (order, name, (" [" + case + "]") if case else "")
+                if isinstance(got, str):
+                    run.finding("Ty::max", "noeval:%s:%s" % (order, name), f.file, f.ln, "%s: %s" % (where, got))
+                    break
+                if "wrapped" in clauses and not is_none(got) and contains_noeval(got) and not contains_noeval(x):
+                    run.finding("Ty::max", "noeval-wrapped:%s:%s" % (order, name), f.file, f.ln,
+                                "%s = %r: the common type of a branch that always jumps and a branch of type %s wraps `noeval` in a constructor; no diagnostic is reported for "
+                                "such an if/else and the code generator cannot build the type (it panics): the arm for Unknown/AlwaysJumps must be consulted before the arm that "
+                                "answered" % (where, got, name))
+                    break
+                if "rejected" in clauses and (is_none(got) or got != x) and not (not is_none(got) and contains_noeval(got)):
+                    run.finding("Ty::max", "noeval-rejected:%s:%s" % (order, name), f.file, f.ln,
+                                "%s = %r instead of %s: a branch that always jumps (return/break/continue) must take no part in the common type of an if/else or switch; the "
+                                "well-typed program is refused or retyped" % (where, got, name))
+                    break
+            else:
+                run.ok(f.site(), "%s = X (%d predicate cases)" % (where.split(" [")[0], len(outcomes)))
 
 
 def rules(ctx):
